@@ -40,6 +40,8 @@ def c02_jobs(tier):
             sizes += [65535, 65536] if W[k] == 1 else [65536]
         for b in sizes:
             jobs.append(J("hsms", "ZZ_C02_boundary", kind=k, n=(b + W[k] - 1) // W[k], fuel=2_000_000_000, timeout_s=3300))
+    for n in ([300, 70000] if tier == "quick" else [300, 70000, 16777215]):
+        jobs.append(J("hsms", "ZZ_C02_bigmessage", n=n, fuel=8_000_000_000, timeout_s=3300))
     return jobs
 
 
@@ -96,6 +98,8 @@ def c07_jobs(tier):
             for present in ((0, 2) if tier == "quick" else (0, 1, 2, 4)):
                 for kind in ((0, 1, 3, 6, 9) if tier == "quick" else range(14)):
                     jobs.append(J("hsms", "ZZ_C07_declared", depth=d, nlb=nlb, present=present, kind=kind))
+    for nlb, kind in ((2, 1), (3, 1), (3, 0), (3, 3), (2, 6)):
+        jobs.append(J("hsms", "ZZ_C07_sparecap", nlb=nlb, kind=kind, extra=(2 << 20), fuel=400_000_000, timeout_s=(250 if tier == "quick" else 3300)))
     for fam in range(7):
         scale = {3: 30000, 6: 6000}.get(fam, 20000)
         jobs.append(J("hsms", "ZZ_C07_growth", fam=fam, j=(32 if tier == "quick" or fam == 6 else 128), scale=scale, fuel=400_000_000))
@@ -142,6 +146,7 @@ def c16_jobs(tier):
             jobs.append(J("ast", "ZZ_C16_tree", order=order, depth=2, width=2, maxn=1, kinds=1, timeout_s=3000))
         jobs.append(J("ast", "ZZ_C16_shared", order=order))
     jobs += [J("ast", "ZZ_C16_dupfill", which=w) for w in range(5)]
+    jobs += [J("ast", "ZZ_C16_ascii", k=k) for k in ([0, 1, 2, 3] if tier == "quick" else [0, 1, 2, 3, 4, 5])]
     return jobs
 
 
@@ -162,7 +167,9 @@ def c10_jobs(tier):
 
 
 def c11_jobs(tier):
-    return [J("hsms", "ZZ_C11_alias", scn=i) for i in range(10)]
+    jobs = [J("hsms", "ZZ_C11_alias", scn=i, h=0) for i in range(11)]
+    jobs += [J("hsms", "ZZ_C11_alias", scn=11, h=h, timeout_s=(250 if tier == "quick" else 3300)) for h in ([1, 2] if tier == "quick" else [1, 2, 3])]
+    return jobs
 
 
 INT_TYPES = [4, 5, 6, 7, 10, 11, 12, 13]  # I8 I1 I2 I4 U8 U1 U2 U4 (index into zzTypes)
@@ -182,6 +189,9 @@ def c05_jobs(tier):
                 jobs.append(J("sml", "ZZ_C05_int", typ=typ, cls=cls, k=k, neg=neg, **T))
     for typ in INT_TYPES + [1]:
         jobs.append(J("sml", "ZZ_C05_two", typ=typ, **T))
+    for typ in ([1, 5, 12, 10] if tier == "quick" else INT_TYPES + [1]):
+        for cls, k in ((3, 2), (3, 3), (2, 2)) + (() if tier == "quick" else ((3, 5), (2, 3), (2, 4))):
+            jobs.append(J("sml", "ZZ_C05_radix", typ=typ, cls=cls, k=k, **T))
     for typ in range(1, 14):
         for which in range(9):
             jobs.append(J("sml", "ZZ_C05_wrongtype", typ=typ, which=which))
@@ -217,10 +227,12 @@ def c15_jobs(tier):
                 jobs.append(J("sml", "ZZ_C15_asciivar", form=form, c=c, ka=ka, kb=kb, sp=(c % 2), nines=0, **T))
     for c in (0, 1, 2, 5):
         jobs.append(J("sml", "ZZ_C15_direct", c=c))
+    for c in (0, 1, 3, 6):
+        jobs.append(J("sml", "ZZ_C15_ellipsis", c=c, **T))
     return jobs
 
 
-SKEL_LEN = [49, 40, 6, 27, 51, 28]
+SKEL_LEN = [43, 36, 6, 21, 41, 25, 62, 53, 34]
 
 
 def c06_jobs(tier):
@@ -228,7 +240,7 @@ def c06_jobs(tier):
     T = dict(timeout_s=(270 if tier == "quick" else 3300))
     for k in ([0, 1, 2, 3] if tier == "quick" else [0, 1, 2, 3, 4]):
         jobs.append(J("sml", "ZZ_C06_raw", k=k, **T))
-    for sk in range(6):
+    for sk in range(9):
         # one arbitrary byte at every position: sharded by position ranges via explicit pos
         for pos in range(SKEL_LEN[sk] + 1):
             if tier == "quick" and sk in (0, 4) and pos % 2 == 1:
@@ -252,7 +264,7 @@ def c06_jobs(tier):
 def c19_jobs(tier):
     jobs = []
     T = dict(timeout_s=(250 if tier == "quick" else 3300))
-    nt, ns = 7, 8
+    nt, ns = 9, 8
     for t1 in range(nt):
         for t2 in range(nt):
             for sep in range(ns):
@@ -319,7 +331,7 @@ def c04_jobs(tier):
 
 
 def c17_jobs(tier):
-    return [J("sml", "ZZ_C17_noninterference", op=op) for op in range(10)] + [J("sml", "ZZ_C17_results", which=w) for w in range(3)]
+    return [J("sml", "ZZ_C17_noninterference", op=op) for op in range(10)] + [J("sml", "ZZ_C17_results", which=w) for w in range(4)]
 
 
 def c12_jobs(tier):
@@ -343,6 +355,9 @@ def c12_jobs(tier):
             if tier == "quick" and k == 4 and kind not in (0, 6):
                 continue
             jobs.append(J("ast", "ZZ_C12_varname", k=k, kind=kind, timeout_s=(200 if tier == "quick" else 3000)))
+    for k in ([0, 1, 2] if tier == "quick" else [0, 1, 2, 3, 4]):
+        for kind in range(4):
+            jobs.append(J("ast", "ZZ_C12_varname_idx", k=k, kind=kind, timeout_s=(200 if tier == "quick" else 3000)))
     jobs += [J("ast", "ZZ_C12_ellipsis", which=i) for i in range(6)]
     jobs += [J("ast", "ZZ_C12_ellipsis", which=6, k=k) for k in ([0, 1, 2, 3] if tier == "quick" else [0, 1, 2, 3, 4, 5])]
     jobs += [J("ast", "ZZ_C12_dupnames", which=i) for i in range(6)]
@@ -363,13 +378,13 @@ def c13_jobs(tier):
         sizes = [0, 1, 3, 255 // w, 255 // w + 1]
         if tier != "quick":
             sizes += [65535 // w, 65535 // w + 1]
-            if w >= 4:
-                sizes += [16777215 // w, 16777215 // w + 1]  # the real limit for 4- and 8-byte formats
+            if w >= 4 or t == 3:
+                sizes += [16777215 // w, 16777215 // w + 1]  # the real limit for 4- and 8-byte formats and ASCII
         for n in sizes:
             jobs.append(J("ast", "ZZ_C13_factory", typ=t, n=n, **BIG))
     if tier != "quick":
         # first size beyond the limit for the 1- and 2-byte formats (the at-limit side would need 16M-element items)
-        for t in (1, 2, 3, 5, 6, 11, 12):
+        for t in (1, 2, 5, 6, 11, 12):
             jobs.append(J("ast", "ZZ_C13_factory", typ=t, n=16777215 // TYPE_W[t] + 1, **BIG))
     # decoder read-back of length fields (harnesses shared with C03): all length bytes symbolic with
     # 256+ bytes present, and length fields of different widths in sequence
